@@ -765,6 +765,28 @@ class SymOpt(SymBase):
         v = self.resolve()
         return getattr(v, name)
 
+    # operators act on the resolved value
+    def __add__(self, o):
+        return self.resolve() + o
+
+    def __radd__(self, o):
+        return o + self.resolve()
+
+    def __getitem__(self, k):
+        return self.resolve()[k]
+
+    def __lt__(self, o):
+        return self.resolve() < o
+
+    def __le__(self, o):
+        return self.resolve() <= o
+
+    def __gt__(self, o):
+        return self.resolve() > o
+
+    def __ge__(self, o):
+        return self.resolve() >= o
+
 
 def resolve(x):
     while isinstance(x, SymOpt):
